@@ -110,7 +110,14 @@ def check_case(ctx, c):
         st["PREFER_MONTH_OF_YEAR"] = c["pmoy"]
     PathTap.reset()
     try:
-        r = DateDataParser(languages=["en"], settings=st).get_date_data(s)["date_obj"]
+        if (b.day + b.minute) % 3 == 0:
+            import dateparser
+
+            r = dateparser.parse(s, languages=["en"], settings=st)
+            ctx.count("via:dateparser.parse")
+        else:
+            r = DateDataParser(languages=["en"], settings=st).get_date_data(s)["date_obj"]
+            ctx.count("via:DateDataParser")
     except Exception as e:
         r = e
     ctx.ran()
